@@ -174,6 +174,17 @@ int main(int argc, char** argv)
 		double muinv = Inv_CDF_Poisson(n, cc);
 		double back	 = CDF_Poisson(muinv, n);
 		T.emit({{"e", "InvPois"}, {"hi", n + 1 > 100}, {"tol", n + 1 > 100 ? "1e-3" : "1e-7"}, {"fin", std::isfinite(muinv) && muinv >= 0}, {"q", quant(back - cc, n + 1 > 100 ? 1e-3 : 1e-7)}});
+		// ... also in the far tails, where an absolute tolerance says nothing: the level reached differs from the requested one by
+		// at most 1e-4 of the tail probability (the inverse is iterated to a relative 1e-8 in the mean; series branch a <= 100)
+		{
+			unsigned nt = (unsigned)g.range(0, 99);
+			double t	= g.logu(1e-11, 0.5);
+			double ct	= g.coin() ? t : 1.0 - t;
+			intent("Inv_CDF_Poisson tail");
+			double mt = Inv_CDF_Poisson(nt, ct);
+			double bt = CDF_Poisson(mt, nt);
+			T.emit({{"e", "InvPoisTail"}, {"side", ct < 0.5 ? 0 : 1}, {"fin", std::isfinite(mt) && mt >= 0}, {"q", quant(bt - ct, 1e-4 * std::min(ct, 1.0 - ct) + 1e-15)}});
+		}
 		// binned likelihood = product over bins; log versions = logarithm
 		int nb = (int)g.range(1, 6);
 		std::vector<double> sg(nb), bk(nb);
